@@ -55,17 +55,21 @@ fn lower_bound_of_target_clause(skeleton: &mut PredicateSkeleton, target_pos: us
         .opt_arg_index_key
         .switch_on_term_loc()
     {
-        let search_result = skeleton.clauses.make_contiguous()
-            [0..skeleton.core.clause_assert_margin]
-            .partition_point(|clause_index_info| clause_index_info.clause_start > index_loc);
+        // the indexed subsequence the clause belongs to is the run of
+        // neighbouring clauses that share its switch_on_term instruction,
+        // whether they were added by assertz/1 or by asserta/1.
+        let mut lower_bound = index;
 
-        if search_result < skeleton.core.clause_assert_margin {
-            search_result
-        } else {
-            skeleton.clauses.make_contiguous()[skeleton.core.clause_assert_margin..]
-                .partition_point(|clause_index_info| clause_index_info.clause_start < index_loc)
-                + skeleton.core.clause_assert_margin
+        while lower_bound > 0
+            && skeleton.clauses[lower_bound - 1]
+                .opt_arg_index_key
+                .switch_on_term_loc()
+                == Some(index_loc)
+        {
+            lower_bound -= 1;
         }
+
+        lower_bound
     } else {
         index
     };
